@@ -43,9 +43,9 @@ def plan(tier):
         "slice crate: src/raft/storage.rs of the current tree after the de-async normalisation (`async fn`->`fn`, `.await` "
         "removed; any other async construct => inconclusive); tokio::sync::RwLock = uncontended lock that always grants; "
         "tracing macros = no-ops",
-        "pre-state = arbitrary log satisfying the invariant the property states: indices strictly increasing and above the "
-        "snapshot index (re-asserted as a post-condition of every step, so it is inductive, not assumed)",
-        "appended batches have consecutive indices, the first above the snapshot index; snapshot indices do not go backwards",
+        "pre-state = arbitrary log satisfying the invariant the property states: indices strictly increasing, at least 1, in no "
+        "relation to the snapshot index (re-asserted as a post-condition of every step, so it is inductive, not assumed)",
+        "appended batches have consecutive indices, the first at least 1; snapshot indices do not go backwards",
         "entry payloads are empty (the module never inspects them)",
         "core::fmt::write / std::fmt::format stubbed; drop glue skipped",
     ]
